@@ -880,6 +880,9 @@ def check(rep, tier):
     from vlib import statecensus
     statecensus.obligations(rep, 'C13', 'planner')
     consumer_obligations(rep, tier)
+    # ... and the two other analyses the statement names: finding the tables and models of a query, rewriting identifiers
+    from vlib import userdep
+    userdep.obligations(rep, tier, 'C13')
     rep.dropped = 'function body read with ast.parse from $REPO_ROOT/mindsdb_sql/planner/utils.py; docstring and comments dropped'
     rep.assume('structural induction: the recursive call satisfies the contract on the (structurally smaller) child',
                'slot discovery: a child slot that no grammar production (and no test statement) ever fills is not in the spec',
